@@ -47,6 +47,12 @@ fn rl_runs_of(bd: &RLBuilder) -> Res<Vec<(usize, usize)>> {
 fn rl_apply(bd: &mut RLBuilder, o: RlOp, seen: &mut RlSeen, out: &mut Out) {
     let len_before = bd.len();
     let r: Res<u64> = match o {
+        // a call that try_set accepts is, on every other occasion, made through the unchecked entry point try_set
+        // forwards to (documented equivalent inside its safety condition start >= len, no overflow; len == 0: no effect)
+        RlOp::TrySet(s, l) if s >= bd.len() && MAX - l >= s && (s ^ l) & 1 == 0 => catch(|| {
+            unsafe { bd.set_run_unchecked(s, l) };
+            0
+        }),
         RlOp::TrySet(s, l) => catch(|| if bd.try_set(s, l).is_ok() { 0 } else { 1 }),
         RlOp::SetLen(k) => catch(|| {
             bd.set_len(k);
